@@ -126,7 +126,7 @@ func (c *ctl) ackAttempt(t *rapid.T) {
 		t.Skip("no ack provable")
 	}
 	p := cands[rapid.IntRange(0, len(cands)-1).Draw(t, "pkt")]
-	variant := rapid.SampledFrom([]string{"genuine", "genuine", "genuine", "flip-code", "alter-message", "alter-result", "alter-relayer", "alter-fee-option", "other-packet-ack", "unknown-height"}).Draw(t, "variant")
+	variant := rapid.SampledFrom([]string{"genuine", "genuine", "genuine", "flip-code", "alter-message", "alter-result", "alter-relayer", "alter-fee-option", "other-packet-ack", "unknown-height", "alter-packet-body", "alter-packet-body"}).Draw(t, "variant")
 	hs := w.ProofHeightsFor(p.SrcIdx, p.DstIdx, p.RecvAt)
 	h := hs[rapid.IntRange(0, len(hs)-1).Draw(t, "height")]
 	rel := w.Rels[rapid.IntRange(0, 1).Draw(t, "rel")]
@@ -166,6 +166,23 @@ func (c *ctl) ackAttempt(t *rapid.T) {
 		kit.Must(err, "pack ack")
 	}
 	msg := kit.MsgAck(w.Chains[p.DstIdx], p.Bz, ackBz, h, rel.Acc)
+	if variant == "alter-packet-body" {
+		// same (source, destination, sequence), genuine ack bytes and proof, but another packet body
+		q := p.P
+		switch rapid.IntRange(0, 3).Draw(t, "bodyField") {
+		case 0:
+			q.Sender = strings.ToLower(w.Outsider.Addr.String())
+		case 1:
+			q.FeeOption++
+		case 2:
+			q.CallbackAddress = strings.ToLower(w.Outsider.Addr.String())
+		default:
+			q.TransferData = append(append([]byte{}, q.TransferData...), 0)
+		}
+		nb, err := q.ABIPack()
+		kit.Must(err, "pack altered packet")
+		msg.Packet = nb
+	}
 	if variant == "unknown-height" {
 		msg.ProofHeight = bridge.H(msg.ProofHeight.RevisionNumber, msg.ProofHeight.RevisionHeight+1000)
 	}
